@@ -84,6 +84,12 @@ func replayPrio(t *testing.T, r *Run) bool {
 	if err := readJSON(r.Cfg.Replay, &doc); err != nil {
 		t.Fatal(err)
 	}
+	if doc.Witness.Scenario.Ver == "" {
+		t.Logf("the witness in %s is not a stepper scenario (nothing to re-run): see the file itself", r.Cfg.Replay)
+		r.Extra["replay_note"] = "witness is not a replayable scenario"
+		r.Floor = 0
+		return true
+	}
 	fired := 0
 	for i := 0; i < 50; i++ {
 		before := r.ViolationCount()
@@ -106,7 +112,7 @@ const prioAssume = "testing/synctest fake clock and durable-blocking rules of go
 func TestC01(t *testing.T) {
 	r := newRun(t, "C01", "exploration")
 	defer r.Finish(t)
-	r.Rule = "cases = generated scenarios for {v2, v1, v2 simple, v1 Simple}: 1..5 priorities from small/dense/skewed/huge pools, Fair/Rate/custom sum-preserving dividers, H from the minimum the constructor accepts up to ~3x and some 64..700, input capacity 0/1/small/large, prefilled or written later; a single stepper goroutine in a synctest bubble plays a script (write, close, drain to quiescence WITHOUT releasing, release groups in random order/grouping, virtual sleeps, progress probes; v1 block: AddInput/RemoveInput/replace interleaved) against the real discipline and checks after every receive that received - release-started <= H. non-trivial = scenario in which held = H was reached; distinct by scenario fingerprint"
+	r.Rule = "cases = generated scenarios for {v2, v1, v2 simple, v1 Simple}: 1..5 priorities from small/dense/skewed/huge pools, Fair/Rate/custom sum-preserving dividers, H from the minimum the constructor accepts up to ~3x and some 64..700, input capacity 0/1/small/large, prefilled or written later; a single stepper goroutine in a synctest bubble plays a script (write, close, drain to quiescence WITHOUT releasing, release groups in random order/grouping, virtual sleeps, progress probes; v1 block: AddInput/RemoveInput/replace interleaved) against the real discipline and checks after every receive that received - release-started <= H; real-clock blocks: H real handler goroutines with random hold times (and v1 control calls from other goroutines) with an atomic counter incremented after each receive and decremented before each release. non-trivial = scenario in which held = H was reached; distinct by scenario fingerprint"
 	r.Assumptions = []string{prioAssume}
 	r.Floor = 20
 	if replayPrio(t, r) {
@@ -125,12 +131,24 @@ func TestC01(t *testing.T) {
 	}
 	r.Parallel(t, "general", r.Cfg.pick(1400, 40000), body(prioGen{Vers: allVers, Dividers: allDividers, Mode: "general"}))
 	r.Parallel(t, "v1-add-remove", r.Cfg.pick(400, 12000), body(prioGen{Vers: []string{"v1"}, Dividers: allDividers, Mode: "addrm"}))
+	// real clock: H handler goroutines with random hold times, atomic in-flight counter
+	realBody := func(vers []string, ctl bool) func(t *testing.T, idx int, rng *rand.Rand) {
+		return func(t *testing.T, idx int, rng *rand.Rand) {
+			sc := genPrioRealScenario(rng, vers, ctl)
+			res := r.prioRealCase(t, sc)
+			if res.Rejected == "" && res.Stuck == "" && res.MaxHeld >= int64(sc.H) {
+				r.NonTrivial(jsonString(sc))
+			}
+		}
+	}
+	r.Parallel(t, "real", r.Cfg.pick(200, 5000), realBody(allVers, false))
+	r.Parallel(t, "real-v1-control", r.Cfg.pick(100, 3000), realBody([]string{"v1"}, true))
 }
 
 func TestC02(t *testing.T) {
 	r := newRun(t, "C02", "exploration")
 	defer r.Finish(t)
-	r.Rule = "same scenario families as C01 (general block); every written item carries (priority, channel, sequence number); single observer of the output: tag = priority of the item's channel, sequence number = next expected of that channel, nothing that was not written; at termination (epilogue closes all inputs and releases everything) the received set equals the written set; simple disciplines: every Handle argument exactly once. non-trivial = scenario that terminated normally with >= 2 priorities having carried >= 2 items each; distinct by scenario fingerprint"
+	r.Rule = "same scenario families as C01 (general block); every written item carries (priority, channel, sequence number); single observer of the output: tag = priority of the item's channel, sequence number = next expected of that channel, nothing that was not written; at termination (epilogue closes all inputs and releases everything) the received set equals the written set; simple disciplines: every Handle argument exactly once; real-clock block with H concurrent handlers: exactly-once, tags, and per-priority order decided on receive intervals (if a was written before b on one input, the receive of b must not have returned before the receive of a was called). non-trivial = scenario that terminated normally with >= 2 priorities having carried >= 2 items each; distinct by scenario fingerprint"
 	r.Assumptions = []string{prioAssume}
 	r.Floor = 20
 	if replayPrio(t, r) {
@@ -143,6 +161,15 @@ func TestC02(t *testing.T) {
 			if r.WantSample() {
 				r.Sample(prioSample(c))
 			}
+		}
+	})
+	// real clock: H concurrent handlers; exactly-once, tags, and per-priority order decided on
+	// receive intervals (no search needed with unique items)
+	r.Parallel(t, "real", r.Cfg.pick(250, 6000), func(t *testing.T, idx int, rng *rand.Rand) {
+		sc := genPrioRealScenario(rng, allVers, false)
+		res := r.prioRealCase(t, sc)
+		if res.Rejected == "" && res.Stuck == "" && !res.Stopped && len(sc.Inputs) >= 2 && res.Received >= 4 {
+			r.NonTrivial(jsonString(sc))
 		}
 	})
 }
